@@ -47,11 +47,13 @@ structure Trace where
   dones : List String := []
   times : List Int := []
   errs  : List String := []
+  readys : List String := []
   adm   : Bool := true
 
 def Trace.push (i : Inst) (s : State) (t : Trace) : Trace :=
   { t with masks := maskBits (nAct i) (mask i s) :: t.masks, dones := bit s.done :: t.dones,
-           times := s.time :: t.times, errs := bit s.err :: t.errs }
+           times := s.time :: t.times, errs := bit s.err :: t.errs,
+           readys := bits ((List.range i.N).map (isReady i s)) :: t.readys }
 
 def finalFields (i : Inst) (s : State) : String :=
   let σ : Rl4co.Spec.Fjsp.Sched := ⟨s.start, s.finish, s.assign⟩
@@ -60,7 +62,7 @@ def finalFields (i : Inst) (s : State) : String :=
   s!"reward={reward i s} start={intsStr ((List.range i.N).map s.start)} finish={intsStr ((List.range i.N).map s.finish)} assign={asg} nextop={natsStr ((List.range i.J).map s.nextOp)} busy={intsStr ((List.range i.M).map s.busy)} valid={bit (Rl4co.Spec.Fjsp.valid i σ mk)} fail={Rl4co.Spec.Fjsp.failing i σ mk} makespan={Rl4co.Spec.Fjsp.makespan i σ}"
 
 def Trace.render (t : Trace) (sfx : String) : String :=
-  s!"masks{sfx}={",".intercalate t.masks.reverse} done{sfx}={String.join t.dones.reverse} times{sfx}={intsStr t.times.reverse} err{sfx}={String.join t.errs.reverse} adm{sfx}={bit t.adm}"
+  s!"masks{sfx}={",".intercalate t.masks.reverse} done{sfx}={String.join t.dones.reverse} times{sfx}={intsStr t.times.reverse} err{sfx}={String.join t.errs.reverse} ready{sfx}={",".intercalate t.readys.reverse} adm{sfx}={bit t.adm}"
 
 /-- `fjsp.episode J M N mno jssp | startOp | endOp | proc (M·N row-major) | pad | actions` -/
 def episode (toks : List String) : Option String := do
